@@ -448,7 +448,8 @@ func Shrink(rn *logq.Runner, db *logq.DB, ch *chsql.DB, req logq.Request, kind s
 	}
 	for round := 0; round < 6; round++ {
 		changed := false
-		changed = try(func(m *logq.MetricQuery) bool { ok := m.TopK > 0; m.TopK = 0; return ok }) || changed
+		changed = try(func(m *logq.MetricQuery) bool { ok := m.TopCmp != nil; m.TopCmp = nil; return ok }) || changed
+		changed = try(func(m *logq.MetricQuery) bool { ok := m.TopK > 0; m.TopK, m.TopCmp = 0, nil; return ok }) || changed
 		changed = try(func(m *logq.MetricQuery) bool { ok := m.AggCmp != nil; m.AggCmp = nil; return ok }) || changed
 		changed = try(func(m *logq.MetricQuery) bool { ok := m.RangeCmp != nil; m.RangeCmp = nil; return ok }) || changed
 		changed = try(func(m *logq.MetricQuery) bool {
